@@ -28,8 +28,10 @@ Decode(t) == CASE t = "%2e%2e" -> <<"..">>
 Decoded(segs) == FlattenSeq([i \in 1..Len(segs) |-> Decode(segs[i])])
 
 \* the tree under the root (paths as sequences of names); everything else does not exist inside
-Tree == [p \in { <<>>, <<"a.txt">>, <<"a.css">>, <<"index.html">>, <<"sub">>, <<"sub", "b.js">>, <<"c.mjs">> } |->
-           IF p \in { <<>>, <<"sub">> } THEN "dir" ELSE "file"]
+\* ("lib.js" is a DIRECTORY whose name ends like an allowed extension; it has an index.html)
+Tree == [p \in { <<>>, <<"a.txt">>, <<"a.css">>, <<"index.html">>, <<"sub">>, <<"sub", "b.js">>, <<"c.mjs">>,
+                 <<"lib.js">>, <<"lib.js", "index.html">> } |->
+           IF p \in { <<>>, <<"sub">>, <<"lib.js">> } THEN "dir" ELSE "file"]
 \* files that exist OUTSIDE the root, addressed relative to the root with leading ".."
 \* (root-internal is a sibling directory whose name starts with the root's name)
 Outside == { <<"..", "secret.txt">>, <<"..", "secret.css">>, <<"..", "root-internal", "key.css">> }
@@ -54,7 +56,7 @@ WalkFrom(segs, i, acc) ==
 Resolve(segs) == IF D_NoClean THEN WalkFrom(segs, 1, <<>>) ELSE Clean(segs)
 
 ExtOf(name) == CASE name \in {"a.txt", "secret.txt"} -> "txt" [] name \in {"a.css", "secret.css", "key.css"} -> "css"
-                 [] name = "b.js" -> "js" [] name = "c.mjs" -> "mjs" [] name = "index.html" -> "html" [] OTHER -> ""
+                 [] name \in {"b.js", "lib.js"} -> "js" [] name = "c.mjs" -> "mjs" [] name = "index.html" -> "html" [] OTHER -> ""
 \* the request path rux matches is normalised (trailing slashes dropped): the last non-empty decoded segment counts
 LastName(segs) == LET ne == SelectSeq(segs, LAMBDA s : s # "") IN IF ne = <<>> THEN "" ELSE ne[Len(ne)]
 ExtAllowed(exts, raw) == ExtOf(LastName(IF D_ExtOnRawTail THEN raw ELSE Decoded(raw))) \in exts
